@@ -176,6 +176,8 @@ enum Status {
     Ready,
     Spin(u32, u64),
     Sleeping(u64),
+    /// waits until every other foreground thread is done (quiescence reads run under the scheduler)
+    WaitAll,
     Exiting,
     Done,
 }
@@ -296,6 +298,7 @@ impl St {
             },
             Status::Spin(l, v) => self.locs[l as usize].version != v,
             Status::Sleeping(until) => self.now >= until,
+            Status::WaitAll => self.th.iter().enumerate().all(|(j, o)| j == i || o.daemon || o.status == Status::Done),
             _ => false,
         }
     }
@@ -364,6 +367,9 @@ impl St {
                         continue;
                     }
                     _ => {
+                        if std::env::var("DSIM_DEBUG").is_ok() {
+                            eprintln!("STUCK: {:?}", self.th.iter().map(|t| (t.status, t.pending, t.daemon)).collect::<Vec<_>>());
+                        }
                         self.outcome = Some(Outcome::Stuck);
                         return None;
                     }
@@ -423,7 +429,7 @@ impl St {
             };
             self.decisions += 1;
             self.tapes.sched.push(choice as u16);
-            if let Status::Spin(..) | Status::Sleeping(_) = self.th[choice].status {
+            if let Status::Spin(..) | Status::Sleeping(_) | Status::WaitAll = self.th[choice].status {
                 self.th[choice].status = Status::Ready;
             }
             return Some(choice);
@@ -711,6 +717,17 @@ impl Ctx {
     }
     pub fn yield_now(&self) {
         yield_point(&self.sim, self.me);
+    }
+    /// Block until every other foreground thread has finished.
+    pub fn wait_quiescent(&self) {
+        let mut st = self.sim.st.lock().unwrap();
+        if st.shutdown {
+            drop(st);
+            std::panic::resume_unwind(Box::new(Shutdown));
+        }
+        st.steps += 1;
+        st.th[self.me].status = Status::WaitAll;
+        let _st = self.sim.handoff(st, self.me);
     }
     pub fn now(&self) -> u64 {
         self.sim.st.lock().unwrap().now
